@@ -20,6 +20,7 @@ from ..treeenv import closure, prune_tree
 
 ID = "C18"
 LEVEL = "exploration"
+SELFTEST_N = 24
 BATCH = 1
 DOUBLE_EVERY = 29
 TASK_LIMIT_S = 1800
